@@ -15,9 +15,9 @@ NOT_BUILT = {
  "C08": "other limit helpers + lemma `limit_chunking`, the reduce side of first/last/min/max (type parameter admits strings), boolean/string merges, `FillTransform` beyond the fast path, all other operators",
  "C09": "`Location` segment walk, `matchPreAgg`, pre-aggregation builders' folds, min/max/first/last folds of `AggregateData` (sum/count are built)",
  "C10": "`GenerateUUID`, `seriesByBinaryExpr`, `seriesByExprIterator`, key codecs",
- "C11": "`createShardGroup` cache, byte equality of write/read shard keys, bounded stand-in",
+ "C11": "`createShardGroup` cache, byte equality of write/read shard keys, bounded stand-in, `Data.ShardGroupsByTimeRange` ordering assumptions of other callers",
  "C12": "literal printers (`NumberLiteral` §8.9), `FormatDuration` lemma, plan/chunk codecs, `wf_paren`, the yacc side",
- "C13": "search entry points over `uint64set`, `DropSeries.Process`, `commitSnapshot` guard",
+ "C13": "search entry points over `uint64set`, `DropSeries.Process`, `commitSnapshot` guard, `filterByDelTsidAndGenNewPart` part swap, delete-set attachment of index builders created after open",
  "C14": "`GetExpiredShards/Indexes` of metaclient, coordinator min-time",
  "C15": "element-wise equality of marshalled collections, `storeFSM.Snapshot/Restore`, `CreateShardGroup` map-order pick",
  "C16": "`wf(data)` as a single invariant, `createShards`, index groups, `CreateDatabase/RetentionPolicy`, `createVersionMeasurement` half-apply, global `Max*ID` frame scan",
